@@ -14,7 +14,7 @@
   events:  B.<id> Send entered · R.<id> Send returned nil · F.<id> Send returned the write timeout ·
            C some Send passed "Send.reconnected" · T.<k> I.<k> G.<k> sender of connection k passed
            "send.top" / "send.inner" / "send.got" · X.<k> receiver k passed "recv.closing" ·
-           P.<k> server closes connection k · A.<k> server accepted connection k ·
+           P.<k> server closes connection k (FIN) · Q.<k> server aborts connection k (RST) · A.<k> server accepted connection k ·
            V.<k>.<id> server read request id on connection k · S.<closed>.<sendQ>.<failQ>.<conns> probe
   actions: <name>[.<arg>…] with the constructor names of `Action` (`mark.top.0`, `sTakeQ.0`, `callBegin.2`)
 -/
@@ -52,6 +52,7 @@ def parseEvent (tok : String) : Option Event :=
   | ["G", k] => (parseNat? k).map (.mark .got)
   | ["X", k] => (parseNat? k).map (.mark .closing)
   | ["P", k] => (parseNat? k).map .pClose
+  | ["Q", k] => (parseNat? k).map .pReset
   | ["A", k] => (parseNat? k).map .accept
   | ["V", k, id] =>
     match parseNat? k, parseNat? id with
@@ -92,7 +93,9 @@ def parseAction (tok : String) : Option Action :=
       | "callFail" => some (.callFail n)
       | "callRet" => some (.callRet n)
       | "pClose" => some (.pClose n)
+      | "pReset" => some (.pReset n)
       | "rEof" => some (.rEof n)
+      | "rErr" => some (.rErr n)
       | "rClose" => some (.rClose n)
       | "rSignal" => some (.rSignal n)
       | "sTopDone" => some (.sTopDone n)
